@@ -94,6 +94,15 @@ fn second_projection_expr(v: &[Statement]) -> Option<Expr> {
     }
     None
 }
+fn starts_with_reserved(d: &dyn sqlparser::dialect::Dialect, e: &str) -> bool {
+    match Tokenizer::new(d, e).tokenize() {
+        Ok(toks) => match toks.iter().find(|t| !matches!(t, Token::Whitespace(_))) {
+            Some(Token::Word(w)) => w.quote_style.is_none() && sqlparser::keywords::RESERVED_FOR_COLUMN_ALIAS.contains(&w.keyword),
+            _ => false,
+        },
+        Err(_) => false,
+    }
+}
 fn selection_expr(v: &[Statement]) -> Option<Expr> {
     if let Some(Statement::Query(q)) = v.first() {
         if let SetExpr::Select(s) = &*q.body {
@@ -176,6 +185,11 @@ pub fn subparsers(c: &Value) -> Value {
             ("SELECT 1 FROM t WHERE {e}", format!("SELECT 1 FROM t WHERE {e}"), selection_expr),
             ("SELECT ({e})", format!("SELECT ({e})"), |v: &[Statement]| match first_projection_expr(v) { Some(Expr::Nested(b)) => Some(*b), o => o }),
         ] {
+            // the list position is not neutral for an expression that starts with a word reserved as a column
+            // alias (OFFSET(2), ALL, ...): after a comma such a word ends a projection with a trailing comma
+            if tpl.starts_with("SELECT 0,") && starts_with_reserved(d, e) {
+                continue;
+            }
             let emb = guarded(|| Parser::parse_sql(d, &text));
             let got = match &emb { Out::Ok(v) => harvest(v), _ => None };
             if got.as_ref() != Some(&x) {
